@@ -108,6 +108,14 @@ def run(ck):
                 if not ms: continue
                 cls, detail, m = r.choice(ms)
                 add("layout." + cls, detail, enc(cfggen.texts(m)), cfggen.encode(m))
+    # every layout-following fault class (duplicates of every id kind, reversers included, bad values, ...) at least three times,
+    # whatever the random draws above selected
+    seen_cls = {}
+    for doc in docs:
+        for cls, detail, m in cfggen.mutations(doc, r, 1):
+            if seen_cls.get(cls, 0) < 3:
+                seen_cls[cls] = seen_cls.get(cls, 0) + 1
+                add("layout." + cls, detail, [t.encode("utf-8") for t in cfggen.texts(m)], cfggen.encode(m))
     # exhaustive partial records: every mapping of two fixed configurations loses / renames its first key, etc.
     for name, doc in (("example", valid_doc), ("zero", cfggen.zero_doc())):
         trees = cfggen.to_trees(doc); texts = [cfggen.emit(t).encode("utf-8") for t in trees]
